@@ -512,7 +512,7 @@ Lemma cut_keeps_documents nw st sp dirty i :
   Good nw st sp dirty -> Good nw (do_cut st i) sp dirty /\ Permutation (working sp) (eff (do_cut st i)).
 Proof. intros H. pose proof (cut_good nw st sp dirty i H) as G. split; [exact G|exact (proj1 (proj1 (proj2 G)))]. Qed.
 Lemma event_good nw st sp dirty e : Good nw st sp dirty -> Good nw (do_event st e) sp dirty.
-Proof. destruct e; [apply take_good|apply cut_good]. Qed.
+Proof. destruct e; [apply take_good|apply cut_good|exact (fun H => H)]. Qed.
 Lemma events_good nw es : forall st sp dirty, Good nw st sp dirty -> Good nw (fold_left do_event es st) sp dirty.
 Proof. induction es as [|e es IH]; intros st sp dirty H; cbn [fold_left]; [exact H|]. apply IH, event_good, H. Qed.
 
